@@ -161,6 +161,9 @@ func init() {
 			if k := i - ctx.N(18, 120); k >= 0 && k < 10 {
 				return formatCase(k)
 			}
+			if k := i - ctx.N(18, 120) - 10; k >= 0 && k < 8 {
+				return typelessDefCase(k)
+			}
 			return nil
 		},
 		args: func(r *sg.Rng, root *sg.Schema) []string {
@@ -204,6 +207,12 @@ func init() {
 		}
 		if k := i - ctx.N(12, 90) - ctx.N(8, 32); k >= 0 && k < 24 {
 			return sharedBranchAnyOfCase(k)
+		}
+		if k := i - ctx.N(12, 90) - ctx.N(8, 32) - 24; k >= 0 && k < 16 {
+			return nestedOverlapCase(k)
+		}
+		if k := i - ctx.N(12, 90) - ctx.N(8, 32) - 40; k >= 0 && k < 9 {
+			return refSiblingCase(k)
 		}
 		return nil
 	}
@@ -1718,6 +1727,153 @@ func crossPackageCase(i int) *sem.Case {
 	case 4:
 		// both on the command line, one package
 		c.Group = []*sem.Case{{Root: lib, RootFile: "lib.json", Sig: c.Sig + "/lib"}}
+	}
+	return c
+}
+
+// nestedOverlapCase: allOf branches that both declare the object property "owner" with members and required lists
+// of their own, a name required at the top level of one branch being required inside the other branch's owner too
+// (and the same the other way round): every (level, name) pair is required on its own.
+func nestedOverlapCase(i int) *sem.Case {
+	str := func() *sg.Schema { return &sg.Schema{Types: []string{"string"}} }
+	b1 := &sg.Schema{Types: []string{"object"}, Props: []sg.Prop{{Name: "kind", S: str()}, {Name: "name", S: str()},
+		{Name: "owner", S: &sg.Schema{Types: []string{"object"}, Props: []sg.Prop{{Name: "name", S: str()}, {Name: "kind", S: str()}}, Required: []string{"name"}}}}, Required: []string{"kind"}}
+	b2 := &sg.Schema{Types: []string{"object"}, Props: []sg.Prop{{Name: "id", S: str()},
+		{Name: "owner", S: &sg.Schema{Types: []string{"object"}, Props: []sg.Prop{{Name: "id", S: str()}}, Required: []string{"id"}}}}, Required: []string{"id"}}
+	switch i % 4 {
+	case 1:
+		// the nested list repeats a name of the SAME branch's top-level list
+		b1.Props[2].S.Required = []string{"kind", "name"}
+	case 2:
+		b1.Required = []string{"kind", "name"}
+	case 3:
+		b2.Props[1].S.Required = nil
+		b1.Props[2].S.Required = []string{"name", "kind"}
+		b1.Props[2].S.Props = append(b1.Props[2].S.Props, sg.Prop{Name: "id", S: str()})
+	}
+	branches := []*sg.Schema{b1, b2}
+	if (i/4)%2 == 1 {
+		branches = []*sg.Schema{b2, b1}
+	}
+	root := &sg.Schema{Types: []string{"object"}}
+	if (i/8)%2 == 1 {
+		d1, d2 := branches[0], branches[1]
+		root.Defs = []sg.Prop{{Name: "First", S: d1}, {Name: "Second", S: d2}}
+		branches = []*sg.Schema{{Ref: "#/$defs/First", Target: d1}, {Ref: "#/$defs/Second", Target: d2}}
+	}
+	root.Props = []sg.Prop{{Name: "item", S: &sg.Schema{AllOf: branches}}}
+	c := &sem.Case{Root: root, Sig: fmt.Sprintf("nested-overlap/%d", i%16), NoAuto: true}
+	top, in := []string{"kind", "name", "id"}, []string{"name", "kind", "id"}
+	for m := 0; m < 64; m++ {
+		item, owner := jsonx.Obj{}, jsonx.Obj{}
+		for k, n := range top {
+			if m&(1<<uint(k)) != 0 {
+				item = append(item, jsonx.KV{K: n, V: "t-" + n})
+			}
+		}
+		for k, n := range in {
+			if m&(8<<uint(k)) != 0 {
+				owner = append(owner, jsonx.KV{K: n, V: "o-" + n})
+			}
+		}
+		item = append(item, jsonx.KV{K: "owner", V: owner})
+		c.Docs = append(c.Docs, docgen.Doc{V: jsonx.Obj{{K: "item", V: item}}, Class: "required", Label: "nested-overlap"})
+	}
+	c.Docs = append(c.Docs, docgen.Doc{V: jsonx.Obj{{K: "item", V: jsonx.Obj{{K: "kind", V: "k"}, {K: "name", V: "n"}, {K: "id", V: "i"}}}}, Class: "required", Label: "no-owner"})
+	return c
+}
+
+// refSiblingCase: a composition member that is a $ref with sibling keywords (required, properties, minProperties
+// spelled next to the reference) and, generated after it, compositions and plain references over the SAME
+// definition: whatever the generator makes of the siblings, the definition itself and its other users stay what
+// the schema says (documents for the member with siblings satisfy both readings of them).
+func refSiblingCase(i int) *sem.Case {
+	str := func() *sg.Schema { return &sg.Schema{Types: []string{"string"}} }
+	contact := &sg.Schema{Types: []string{"object"}, Props: []sg.Prop{{Name: "email", S: str()}, {Name: "phone", S: str()}}, Required: []string{"email"}}
+	audit := &sg.Schema{Types: []string{"object"}, Props: []sg.Prop{{Name: "createdBy", S: str()}}, Required: []string{"createdBy"}}
+	sib := &sg.Schema{Ref: "#/$defs/Contact", Target: contact}
+	switch i % 3 {
+	case 0:
+		sib.Extra = jsonx.Obj{{K: "required", V: []any{"phone"}}}
+	case 1:
+		sib.Extra = jsonx.Obj{{K: "required", V: []any{"phone", "fax"}}, {K: "properties", V: jsonx.Obj{{K: "fax", V: jsonx.Obj{{K: "type", V: "string"}}}}}}
+	case 2:
+		sib.Extra = jsonx.Obj{{K: "required", V: []any{"phone"}}, {K: "minProperties", V: jsonx.N(2)}}
+	}
+	plainC := func() *sg.Schema { return &sg.Schema{Ref: "#/$defs/Contact", Target: contact} }
+	plainA := func() *sg.Schema { return &sg.Schema{Ref: "#/$defs/Audit", Target: audit} }
+	root := &sg.Schema{Types: []string{"object"}, Defs: []sg.Prop{{Name: "Contact", S: contact}, {Name: "Audit", S: audit}}}
+	var first *sg.Schema
+	switch (i / 3) % 3 {
+	case 0:
+		first = &sg.Schema{AllOf: []*sg.Schema{sib, plainA()}}
+	case 1:
+		first = &sg.Schema{AnyOf: []*sg.Schema{sib, plainA()}}
+	case 2:
+		first = sib
+	}
+	root.Props = []sg.Prop{{Name: "a_first", S: first},
+		{Name: "shipping", S: &sg.Schema{AllOf: []*sg.Schema{plainC(), plainA()}}},
+		{Name: "either", S: &sg.Schema{AnyOf: []*sg.Schema{plainC(), plainA()}}},
+		{Name: "zcontact", S: plainC()}}
+	c := &sem.Case{Root: root, Sig: fmt.Sprintf("ref-sibling/%d", i%9), NoAuto: true}
+	full := jsonx.Obj{{K: "email", V: "a@b"}, {K: "phone", V: "1"}, {K: "fax", V: "2"}, {K: "createdBy", V: "me"}}
+	noPhone := jsonx.Obj{{K: "email", V: "a@b"}, {K: "createdBy", V: "me"}}
+	onlyContact := jsonx.Obj{{K: "email", V: "a@b"}}
+	onlyAudit := jsonx.Obj{{K: "createdBy", V: "me"}}
+	for _, d := range []jsonx.Obj{
+		{{K: "a_first", V: full}}, {{K: "shipping", V: full}}, {{K: "shipping", V: noPhone}}, {{K: "shipping", V: onlyContact}}, {{K: "shipping", V: onlyAudit}},
+		{{K: "either", V: noPhone}}, {{K: "either", V: onlyContact}}, {{K: "either", V: onlyAudit}}, {{K: "either", V: jsonx.Obj{{K: "phone", V: "1"}}}},
+		{{K: "zcontact", V: onlyContact}}, {{K: "zcontact", V: jsonx.Obj{{K: "phone", V: "1"}}}}, {{K: "zcontact", V: full}},
+		{{K: "a_first", V: full}, {K: "shipping", V: noPhone}, {K: "either", V: onlyContact}, {K: "zcontact", V: onlyContact}},
+	} {
+		c.Docs = append(c.Docs, docgen.Doc{V: d, Class: "required", Label: "ref-sibling"})
+	}
+	return c
+}
+
+// typelessDefCase: definitions that state members but no type (any JSON value is valid for them; the members only
+// describe the object case), named so that they sort before / after the definition that refers to them, reached
+// from definitions, from the root, as array items and inside compositions: every JSON value stays accepted and
+// round-trips.
+func typelessDefCase(i int) *sem.Case {
+	free := func() *sg.Schema {
+		s := &sg.Schema{Props: []sg.Prop{{Name: "kind", S: &sg.Schema{Types: []string{"string"}}}, {Name: "size", S: &sg.Schema{Types: []string{"integer"}}}}}
+		if i%2 == 1 {
+			s.Desc = "no type: any value"
+		}
+		return s
+	}
+	early, late := free(), free() // "Attachment" sorts before "Order", "Payload" after it
+	ref := func(n string, t *sg.Schema) *sg.Schema { return &sg.Schema{Ref: "#/$defs/" + n, Target: t} }
+	order := &sg.Schema{Types: []string{"object"}, Props: []sg.Prop{{Name: "id", S: &sg.Schema{Types: []string{"integer"}, Min: sg.Fp(1)}}}, Required: []string{"id"}}
+	switch (i / 2) % 4 {
+	case 0:
+		order.Props = append(order.Props, sg.Prop{Name: "payload", S: ref("Payload", late)}, sg.Prop{Name: "attachment", S: ref("Attachment", early)})
+	case 1:
+		order.Props = append(order.Props, sg.Prop{Name: "history", S: &sg.Schema{Types: []string{"array"}, Items: ref("Payload", late)}}, sg.Prop{Name: "files", S: &sg.Schema{Types: []string{"array"}, Items: ref("Attachment", early)}})
+	case 2:
+		order.Props = append(order.Props, sg.Prop{Name: "payload", S: ref("Payload", late)}, sg.Prop{Name: "history", S: &sg.Schema{Types: []string{"array"}, Items: ref("Payload", late)}})
+	case 3:
+		order.AddProps = ref("Payload", late)
+	}
+	root := &sg.Schema{Types: []string{"object"}, Defs: []sg.Prop{{Name: "Attachment", S: early}, {Name: "Order", S: order}, {Name: "Payload", S: late}},
+		Props: []sg.Prop{{Name: "order", S: ref("Order", order)}, {Name: "direct", S: ref("Payload", late)}, {Name: "first", S: ref("Attachment", early)}}}
+	c := &sem.Case{Root: root, Sig: fmt.Sprintf("typeless-def/%d", i%8), NoAuto: true}
+	for _, v := range []any{"text", jsonx.N(5), jsonx.Num("2.5"), true, []any{jsonx.N(1), "a"}, jsonx.Obj{{K: "kind", V: "k"}, {K: "size", V: jsonx.N(3)}}, jsonx.Obj{{K: "other", V: []any{}}}, jsonx.Obj{}} {
+		o := jsonx.Obj{{K: "id", V: jsonx.N(7)}}
+		switch (i / 2) % 4 {
+		case 0:
+			o = append(o, jsonx.KV{K: "payload", V: v}, jsonx.KV{K: "attachment", V: v})
+		case 1:
+			o = append(o, jsonx.KV{K: "history", V: []any{v, v}}, jsonx.KV{K: "files", V: []any{v}})
+		case 2:
+			o = append(o, jsonx.KV{K: "payload", V: v}, jsonx.KV{K: "history", V: []any{v}})
+		case 3:
+			o = append(o, jsonx.KV{K: "extra1", V: v}, jsonx.KV{K: "extra2", V: v})
+		}
+		c.Docs = append(c.Docs, docgen.Doc{V: jsonx.Obj{{K: "order", V: o}}, Class: "valid", Label: "typeless-in-order", Stated: "accept"},
+			docgen.Doc{V: jsonx.Obj{{K: "direct", V: v}, {K: "first", V: v}}, Class: "valid", Label: "typeless-direct", Stated: "accept"})
 	}
 	return c
 }
